@@ -30,6 +30,7 @@ uint8_t Encoder::getStreamId() const
 
 void Encoder::setMessageType(const Packet& packet){
     messageType = packet.getMessageType();
+    cmpFrameTemplate.clear();
     addNewCMPFrame(packet);
 }
 
